@@ -11,7 +11,7 @@ import (
 // The server read loop: a datagram that fills the inbound buffer (n >= InboundMTU) may be truncated and
 // is dropped, never handled; a shorter one is handled exactly as received.
 //
-//verif:props=C05,C09 unwind=20 bounds="InboundMTU 1..64 (symbolic); one 20-byte Binding request delivered with UDP truncation semantics or by a stream framer (n = frame size even when the buffer is shorter), then the socket closes"
+//verif:props=C05,C09,C19 unwind=20 bounds="InboundMTU 1..64 (symbolic); one 20-byte Binding request delivered with UDP truncation semantics or by a stream framer (n = frame size even when the buffer is shorter), then the socket closes"
 func VerifHarness_C05_inbound_mtu() {
 	mtu := vIntRange(1, 64)
 	env := allocation.VNewManager(false, false)
